@@ -59,13 +59,18 @@ class PendingNamedExpr(PendingExprGeneric[NamedExpr]):
 
     def get_result(self) -> expr:
         assert self.value is not None
-        result = self.nsp.get_assign(self.node.target.id, self.value)
+        name = self.node.target.id
+        if self.nsp.bound_in_inner_scope(name):
+            # inside a lambda the name is a local variable of the lambda
+            return NamedExpr(target=Name(id=name, ctx=Store()), value=self.value)
+        result = self.nsp.get_assign(name, self.value)
         if not isinstance(result, NamedExpr):
+            # the value of the expression is what was stored
             result = Subscript(
                 value=List(
                     elts=[
                         result,
-                        self.node.target,
+                        self.nsp.get_load_assigned(name),
                     ],
                     ctx=Load(),
                 ),
@@ -127,6 +132,18 @@ class PendingLambda(PendingScope[Lambda]):
             self.bound_names.add(args.vararg.arg)
         if args.kwarg is not None:
             self.bound_names.add(args.kwarg.arg)
+        # an assignment expression binds its target in the lambda that contains
+        # it (comprehensions in between pass it on, lambdas do not)
+        walk_stack: list[AST] = [node.body]
+        while walk_stack:
+            sub_node = walk_stack.pop()
+            if isinstance(sub_node, Lambda):
+                walk_stack.extend(sub_node.args.defaults)
+                walk_stack.extend(d for d in sub_node.args.kw_defaults if d is not None)
+                continue
+            if isinstance(sub_node, NamedExpr):
+                self.bound_names.add(sub_node.target.id)
+            walk_stack.extend(iter_child_nodes(sub_node))
 
     def _iter_fields(self):
         # the default values belong to the enclosing scope
